@@ -358,7 +358,8 @@ def experiments(ctx):
     if 'res' in _EXP:
         return _EXP['res']
     import numqi
-    seeds = [3 + ctx.seed, 17 + 5 * ctx.seed] if ctx.quick() else [3 + ctx.seed, 17 + 5 * ctx.seed, 101 + ctx.seed, 2 ** 31 + 7 * ctx.seed]
+    # seed 0 is always included (a falsy int must still be an int seed); the others vary with VERIF_SEED
+    seeds = [0, 3 + ctx.seed, 17 + 5 * ctx.seed] if ctx.quick() else [0, 1, 3 + ctx.seed, 17 + 5 * ctx.seed, 101 + ctx.seed, 2 ** 31 + 7 * ctx.seed]
     heavy = ('cha.', 'pureb.')
     res = []
     for name, label, f, prep in recipes(ctx.quick()):
@@ -382,8 +383,11 @@ def normaliser_behaviour():
     out = {}
     for nm, f, draw in (('numpy', numqi.random.get_numpy_rng, lambda g: g.integers(0, 2 ** 62, size=4).tolist()),
                         ('python', numqi.random.get_random_rng, lambda g: [g.getrandbits(62) for _ in range(4)])):
-        a, b = draw(f(12345)), draw(f(12345))
-        out[nm + ' int'] = 'seeded' if a == b and a != draw(f(12346)) else 'not-a-function-of-the-int'
+        ok = True
+        for k in (0, 1, 12345, 2 ** 40 + 3):
+            a, b = draw(f(k)), draw(f(k))
+            ok = ok and a == b and a != draw(f(k + 1))
+        out[nm + ' int'] = 'seeded' if ok else 'not-a-function-of-the-int'
         g = f(7)
         out[nm + ' gen'] = 'same' if f(g) is g else 'different-object'
         out[nm + ' none'] = 'fresh' if draw(f(None)) != draw(f(None)) else 'repeats'
